@@ -21,6 +21,10 @@ func VerifC09_Mint() {
 	cap := verifMul(new(big.Int).SetUint64(max), prec)
 	supply := verifIntIn("supply", big.NewInt(0), cap) // invariant K2: supply <= cap
 	tok := e.seedToken("kitty", "kit", scale, 0, max, mintable, e.owner, supply, e.other)
+	// coins of this token may have been burned before (they have left the supply; the tally only records them)
+	if verifChoice("hasBurnTally", 2) == 1 {
+		e.k.AddBurnCoin(e.ctx, sdk.Coin{Denom: tok.MinUnit, Amount: verifIntIn("burnTally", big.NewInt(1), verifPow2(100))})
+	}
 	actor, isOwner := e.actor("actor")
 	amt := verifIntIn("amt", big.NewInt(1), verifPow2(128))
 	var recipient sdk.AccAddress
@@ -35,6 +39,7 @@ func VerifC09_Mint() {
 	if err != nil {
 		verifCover("refused")
 		verifAssert(s1.Cmp(s0) == 0, "refused mint changes nothing")
+		verifAssert(!(isOwner && mintable && verifAdd(s0, amt.BigInt()).Cmp(cap) <= 0), "the owner of a mintable token can mint up to the cap")
 		return
 	}
 	verifCover("minted")
